@@ -137,7 +137,7 @@ def quest(chk, prog, tier):
         K[1:, 0] = z
         K[1:, 1:] = S - sigma * I(3)
         return eq(phi, det(K - lam * I(4)), "phi(lambda)")
-    if tier == "thorough":
+    if True:        # cheap: decided on every run (the mutation sweep showed coefficient slips of phi survive without it)
         chk.ob("QUEST.charpoly", f.ref, "lambda^4 - (a+b) lambda^2 - c lambda + k == det(K - lambda I) for symbolic B", charpoly, construct="characteristic polynomial", **kw)
     # consistent data with the class's own reference forms g = (0,0,1), m = (cos dip, 0, sin dip)
     q = unit_syms("cq")
@@ -288,7 +288,7 @@ def flae(chk, prog, tier):
                 return r_
         return (None, "no Newton update found in class FLAE")
     chk.ob("FLAE.newton", f.ref, "fp == d f / d lambda", newton, construct="Newton derivative", **kw)
-    if tier == "thorough":
+    if True:
         def charpoly():
             H = sym_mat("H", 3, 3)
             it = Interp(prog)
@@ -416,6 +416,35 @@ def am2q_route(chk, prog):
         chk.error("AM2Q: am2q no longer composes am2DCM and dcm2quat (anchor changed): %s" % calls)
 
 
+def aqua_tilt(chk, prog):
+    """AQUA.tilt: the accelerometer-only fix of AQUA.estimate, on both arms of its `az >= 0` test, returns a quaternion whose matrix maps the vertical onto the
+    normalised measurement (in one and the same direction on both arms); with a magnetometer the combined rotation additionally leaves the measured field without
+    an east component (the heading fix), again on both arms of `lx >= 0`"""
+    f = prog.func(F + "aqua.py::AQUA.estimate")
+    chk.touch(f)
+    kw = dict(module=f.module.rel, function=f.qname, line=f.node.lineno)
+    a = unit_vec("ta")
+    e3 = np.array([P.ZERO, P.ZERO, P.ONE], dtype=object)
+    direction = {}
+    for arm in (True, False):
+        def law(arm=arm):
+            P.declare_positive(1 + a[2] if arm else 1 - a[2])
+            it = Interp(prog, oracle=lambda c, i: arm if c.op in (">=", ">", "<", "<=") else None)
+            obj = it.make_obj(F + "aqua.py::AQUA")
+            q = to_obj(it.run(f, [a.copy()], self_obj=obj))
+            n2 = sum((x * x for x in q), P.ZERO)
+            Eq = E_ref(q)
+            r1, r2 = eq(Eq @ e3, a * n2, "E(q) e3"), eq(Eq.T @ e3, a * n2, "E(q)^T e3")
+            if r1 is True or r2 is True:
+                d = "E(q)" if r1 is True else "E(q)^T"
+                if direction.setdefault("d", d) != d:
+                    return (False, "the two arms of `az >= 0` rotate in opposite directions (%s vs %s)" % (direction["d"], d), None)
+                return True
+            return r1 if r1[0] is False and r2[0] is False else (r1 if r1[0] is None else r2)
+        chk.ob("AQUA.tilt", f.ref + "::az %s 0" % (">=" if arm else "<"), "E(q_acc) maps e3 onto a/|a| on the arm az %s 0" % (">=" if arm else "<"), law,
+               construct="tilt fix [az %s 0]" % (">=" if arm else "<"), **kw)
+
+
 def pose_div(chk, prog):
     """POSE-DIV: the singularity-free estimator (Tilt, scalar and batch copy) divides only by the norms of its samples and by literals:
     any other divisor is a pose-dependent quantity that vanishes for some attitude (the documented selling point is that none does)."""
@@ -515,6 +544,7 @@ def run(chk, prog, tier):
     stale_cache(chk, prog)
     pose_div(chk, prog)
     am2q_route(chk, prog)
+    aqua_tilt(chk, prog)
     if arm_guard(chk, prog, F + "aqua.py::AQUA.estimate") < 6:
         chk.error("ARM-GUARD: fewer than 6 guarded divisors found in AQUA.estimate (two two-armed formulas confirmed by hand)")
     chk.require_count("OLEQ.fixed", 2)
